@@ -146,7 +146,9 @@ def rule_text(r, v, priority=None):
     lines = ['[%s]' % rule_name(r, v)]
     props = []
     for l in r['lets']:
-        props.append('let: %s = %s' % (l['n'], cond(l['c'], v)))
+        # names are case-insensitive: a binding may be WRITTEN in any letter case, whatever case its uses are written in
+        lc = (getattr(v, 'a1', 0) + getattr(v, 'ae', 0) + getattr(v, 'tag', 0)) % 3
+        props.append('let: %s = %s' % (l['n'] if lc == 0 else l['n'].upper() if lc == 1 else l['n'].title(), cond(l['c'], v)))
     if 'dyn' in r['tags'] and 'tagsrc' in DYN_FORMS[v.dyn]:
         props.append(DYN_LET)
     if 'shape' in r:
